@@ -320,7 +320,7 @@ fn accept_strategy(tier: Tier) -> BoxedStrategy<LedgerCase> { ledger_strategy(pa
 pub fn def() -> PropDef {
     let mut d = PropDef::new("C04", "(accept) valid histories from the model-guided generator must not be rejected and every row must satisfy the balance invariants; (reject) the same histories with exactly one listed cause planted at a chosen row (over-sale by epsilon / by a lot / covered by other affiliates, RoC > ACB, RoC or SfLA on a registered affiliate, whole-number reverse split leaving a fraction, declared SfL on a non-loss, declared SfL off by > 0.001) must be rejected with a message naming that row's trade date, showing exactly the model's ledger prefix, excluded from all totals, in text / CSV-writer / render-model modes. Non-trivial = rejected history whose offending row is not the first row of its security, or accepted history with a sale of the entire holding after a split. Distinct = distinct case content.");
     d.assumptions = vec!["reference model decides which histories contain a listed cause", "a split for all affiliates is never generated within three days of a per-affiliate split of the same security (the tool refuses that combination by design; finding F-04d)", "the CSV-directory mode is exercised through CsvWriter into a buffer plus the error stream; the real binary is covered by the C09 sub-check"];
-    d.subs.push(Box::new(Sub::<LedgerCase> { name: "accept", cases_quick: 15_000, cases_thorough: 600_000, strategy: accept_strategy, to_json: LedgerCase::to_json, from_json: LedgerCase::from_json, check: check_accept }));
-    d.subs.push(Box::new(Sub::<RejectCase> { name: "reject", cases_quick: 10_000, cases_thorough: 400_000, strategy: reject_strategy, to_json: RejectCase::to_json, from_json: RejectCase::from_json, check: check_reject }));
+    d.subs.push(Box::new(Sub::<LedgerCase> { name: "accept", cases_quick: 15_000, cases_thorough: 600_000, strategy: Box::new(accept_strategy), to_json: LedgerCase::to_json, from_json: LedgerCase::from_json, check: check_accept }));
+    d.subs.push(Box::new(Sub::<RejectCase> { name: "reject", cases_quick: 10_000, cases_thorough: 400_000, strategy: Box::new(reject_strategy), to_json: RejectCase::to_json, from_json: RejectCase::from_json, check: check_reject }));
     d
 }
